@@ -86,6 +86,7 @@ func createControlConn(session *Session) *controlConn {
 }
 
 func (c *controlConn) heartBeat() {
+	verifPoint("ctl.hb.start")
 	if !atomic.CompareAndSwapInt32(&c.state, controlConnStarting, controlConnStarted) {
 		return
 	}
@@ -533,6 +534,7 @@ func (c *controlConn) awaitSchemaAgreement() error {
 }
 
 func (c *controlConn) close() {
+	verifPoint("ctl.close")
 	if atomic.CompareAndSwapInt32(&c.state, controlConnStarted, controlConnClosing) {
 		c.quit <- struct{}{}
 	}
